@@ -11,7 +11,8 @@ from types import SimpleNamespace
 
 from . import common
 from .stack import VCLOCK, FakeTimer
-from .c10 import (Btp, _Shim, patch_env, cam_coder, vam_coder, tpv_of, its_of_utc_ms, _vtime, _phase)
+from .c10 import (Btp, _Shim, patch_env, cam_coder, vam_coder, tpv_of, its_of_utc_ms, _vtime, _phase, _real_threading,
+                  _real_random, _real_time)
 
 PROP = "C11"
 COQ_TARGETS = ["Properties/C11", "Extract/ExC11"]
@@ -466,7 +467,7 @@ def run_vam_case(case):
     info = {}
     if case["cluster"] != "none":
         import flexstack.facilities.vru_awareness_service.vru_clustering as vc
-        vc.random = _Shim(randint=lambda a, b: 77)
+        vc.random = _Shim(_real_random, randint=lambda a, b: 77)
         cm = VBSClusteringManager(own_station_id=77, own_vru_profile="pedestrian", time_fn=lambda: VCLOCK.ms / 1000)
         drive_cluster(cm, case["cluster"], case["reports"][0])
         info["state"] = cm.state.value
@@ -518,8 +519,8 @@ def run_denm_case(case):
     for m in (dtm, eva, lc):
         if hasattr(m, "TimeService"):
             m.TimeService.time = staticmethod(_vtime)
-    dtm.threading = _Shim(Thread=SyncThread)
-    dtm.time = _Shim(sleep=lambda s: VCLOCK.advance(int(round(s * 1000))), time=_vtime)
+    dtm.threading = _Shim(_real_threading, Thread=SyncThread, Timer=FakeTimer)
+    dtm.time = _Shim(_real_time, sleep=lambda s: VCLOCK.advance(int(round(s * 1000))), time=_vtime)
     VCLOCK.set_ms(case["t0"])
 
     class BtpStub(Btp):
@@ -773,6 +774,16 @@ def t0_of(rng):
     return 1_600_000_000_000 + rng.randrange(0, 300_000_000_000)
 
 
+def seq_ts(rng, reps):
+    """give the reports of one case increasing time stamps (150 ms .. 2.5 s apart, so that the VRU service, whose
+    minimum gap is measured on them, sends one VAM per report), starting anywhere relative to the gdt wrap"""
+    t = t0_of(rng)
+    for r in reps:
+        r["ts"] = t
+        t += rng.choice([150, 1000, 2500])
+    return reps
+
+
 def run_case(ctx, case, tag):
     if "gdt_reconstruct" in case:
         g = case["gdt_reconstruct"]
@@ -800,7 +811,7 @@ def run(ctx):
     cases = []
     allsub = list(subsets(OPTIONAL))
     for rounds in range(1 if quick else 4):
-        reps = [gen_report(rng, t0_of(rng), keys=s) for s in allsub]
+        reps = seq_ts(rng, [gen_report(rng, 0, keys=s) for s in allsub])
         cases.append({"kind": "cam", "t0": t0_of(rng), "station_type": 5, "role": 0, "mode": "restart", "reports": reps})
         cases.append({"kind": "vam", "t0": t0_of(rng), "station_type": 1, "cluster": "standalone", "reports": reps})
         cases.append({"kind": "denm", "t0": t0_of(rng), "station_type": 10, "request": "eva", "reports": reps[::4]})
@@ -808,7 +819,7 @@ def run(ctx):
     # all station types / roles
     cases = []
     for st in range(16):
-        reps = [gen_report(rng, t0_of(rng)) for _ in range(2 if quick else 6)]
+        reps = seq_ts(rng, [gen_report(rng, 0) for _ in range(2 if quick else 6)])
         cases.append({"kind": "cam", "t0": t0_of(rng), "station_type": st, "role": (st * 7 + 3) % 16,
                       "mode": rng.choice(["run", "restart"]), "reports": reps})
         cases.append({"kind": "cam", "t0": t0_of(rng), "station_type": (st + 5) % 16, "role": st, "mode": "run", "reports": reps[:2]})
@@ -819,15 +830,15 @@ def run(ctx):
     cases = []
     for state in CLUSTER_STATES:
         for _ in range(1 if quick else 4):
-            reps = [gen_report(rng, t0_of(rng)) for _ in range(3 if quick else 8)]
+            reps = seq_ts(rng, [gen_report(rng, 0) for _ in range(3 if quick else 8)])
             cases.append({"kind": "vam", "t0": t0_of(rng), "station_type": rng.choice([1, 2, 0]), "cluster": state, "reports": reps})
     check_cases(ctx, cases, "cluster")
     # random reports in range and the out-of-range stream
-    n = 260 if quick else 4000
+    n = 3000 if quick else 100000
     cases = []
     for i in range(n // 20):
         wide = i % 5 == 4
-        reps = [gen_report(rng, t0_of(rng), wide=wide) for _ in range(20)]
+        reps = seq_ts(rng, [gen_report(rng, 0, wide=wide) for _ in range(20)])
         cases.append({"kind": "cam", "t0": t0_of(rng), "station_type": rng.randrange(16), "role": rng.randrange(16),
                       "mode": "run" if i % 2 else "restart", "reports": reps})
         cases.append({"kind": "vam", "t0": t0_of(rng), "station_type": rng.randrange(16), "cluster": rng.choice(["none", "standalone", "join_notify"]),
